@@ -2,6 +2,7 @@
 import z3
 from ..harness import *
 from ..tlayer import *
+from ..player import call_templates
 from ..reference import semantics as sem
 
 F64_FUNCS = ['Sin', 'Cos', 'Tan', 'Sinh', 'Cosh', 'Tanh', 'Asin', 'Acos', 'Atan', 'Arsinh', 'Arcosh', 'Artanh', 'Ln', 'Lb', 'Exp', 'Exp2',
@@ -17,6 +18,8 @@ def obligations(ctx):
         # T: every name / alias / constant of the README, in every evaluator (foreign names must give no token)
         for ev in lx.EVALS:
             obs += keyword_templates('C10', ev, oc, tag, nearmiss=(ctx.tier == 'thorough'))
+            # P: each function token followed by 0..3 arguments builds the node of that function with the arguments in order (fixed arities enforced)
+            obs += call_templates('C10', ev, oc, tag)
         # E: each function node computes the function of that name on its arguments in order
         for k in F64_FUNCS:
             # n! of integers is exact: operand = an integer-valued double 0..22 (larger n: the product loop is C02's subject; non-integers: Gamma accuracy, undecided)
